@@ -65,6 +65,35 @@ def _val(rng, allow_unknown_ref=True, allow_macro=True):
   return {'list': [_val(rng, allow_unknown_ref, allow_macro), {'lit': 1}]}
 
 
+class _FailingModuleFinder(object):
+  """Simulated import system: `vsim_c15_optdep` is found, and fails on import
+  the way a module with a missing optional dependency does."""
+
+  @staticmethod
+  def find_spec(name, path=None, target=None):
+    if name != 'vsim_c15_optdep':
+      return None
+    import importlib.machinery
+
+    class _Loader(object):
+
+      @staticmethod
+      def create_module(spec):
+        return None
+
+      @staticmethod
+      def exec_module(module):
+        raise ImportError('optional dependency missing')
+    return importlib.machinery.ModuleSpec(name, _Loader())
+
+
+def _install_failing_module_finder():
+  import sys
+  if not any(isinstance(f, type) and f.__name__ == '_FailingModuleFinder'
+             for f in sys.meta_path):
+    sys.meta_path.insert(0, _FailingModuleFinder)
+
+
 def gen(rng, tier):
   dynamic = rng.random() < 0.2
   parses = []
@@ -98,9 +127,13 @@ def gen(rng, tier):
         stmts.append({'k': 'macro', 'name': 'M0', 'val': val})
       else:
         stmts.append({'k': 'import', 'form': 'import',
+                      # (vsim_c15_optdep exists, but importing it fails with
+                      # an ImportError of its own: "optional dependency
+                      # missing", without the name of a missing module)
                       'module': rng.choice(['vsim_mods.alpha',
                                             'no_such_module_c15',
-                                            'vsim_mods.missing_sub']),
+                                            'vsim_mods.missing_sub',
+                                            'vsim_c15_optdep']),
                       'alias': None})
     r = rng.random()
     names = UNKNOWN + [LATE, LATE_METHOD] + KNOWN
@@ -178,6 +211,7 @@ def run(case):
     fns = {n: register(n) for n in KNOWN}
     register('prod')
     probes.plant_module('vsim_mods.alpha')
+    _install_failing_module_finder()
     return fns
 
   fns = setup()
